@@ -371,7 +371,10 @@ func (o *oracles) secondLife(dir string, st1 *manager.VerifState, v1 *ViewSig, w
 	// DESIGN §8.4) — then the result must be that of a one-shot import of all.
 	o.secondLives++
 	furtherImported := false
-	if o.secondLives%2 == 0 {
+	// (not in a run in which the service was restarted while an import was queued
+	// or running: the next start lists that capture as known without indexing it,
+	// DESIGN §8.4, and the harness can no longer tell which captures were processed)
+	if o.secondLives%2 == 0 && !o.completeOff {
 		d := dirsAt(dir)
 		done := map[string]bool{}
 		for _, f := range processed {
